@@ -25,16 +25,19 @@ variable {α : Type} [Sub α] [Mul α] [OfScientific α] [LT α] [DecidableLT α
 def Frozen (Kn : Kernels γ σ α) (abs : α → α) (eps : α) (m : Mol σ α) : Prop :=
   m.active = false → ∀ k cand, updMol Kn abs eps k cand m = m
 
+/-- the flag `bad | dm_bad | dm_elem_bad` as a function of the four numbers it compares -/
+def flagOf (abs : α → α) (eps e d l : α) (di : Option α) : Bool :=
+  ((match di with
+    | some x => decide (eps < abs e) || decide (50.0 * eps < x)
+    | none => decide (eps < abs e)) || decide (eps * 2.0 < d)) || decide (eps * 15.0 < l)
+
 /-- `get_error` on an inactive row only re-evaluates the comparisons on the stored values -/
 theorem getErrorMol_inactive_eq (abs : α → α) (eps eN eO e dF elF d l : α) (di : Option α) :
     getErrorMol abs eps
       { active := false, eNew := eN, eOld := eO, errStored := e, dmFresh := dF,
         elemFresh := elF, dmStored := d, elemStored := l, diis := di } =
-      { notconv := ((match di with
-            | some x => decide (eps < abs e) || decide (50.0 * eps < x)
-            | none => decide (eps < abs e)) || decide (eps * 2.0 < d)) || decide (eps * 15.0 < l),
-        dm := d, elem := l, err := e, fresh := false } := by
-  cases di <;> simp [getErrorMol]
+      { notconv := flagOf abs eps e d l di, dm := d, elem := l, err := e, fresh := false } := by
+  cases di <;> simp [getErrorMol, flagOf]
 
 /-- `get_error` on an active row that comes out converged: all three errors are the fresh ones
     and every comparison was `False` -/
@@ -47,10 +50,7 @@ theorem getErrorMol_active_conv (abs : α → α) (eps eN eO e dF elF d l : α) 
       { active := true, eNew := eN, eOld := eO, errStored := e, dmFresh := dF,
         elemFresh := elF, dmStored := d, elemStored := l, diis := di } =
       { notconv := false, dm := dF, elem := elF, err := eN - eO, fresh := true } ∧
-    ((match di with
-        | some x => decide (eps < abs (eN - eO)) || decide (50.0 * eps < x)
-        | none => decide (eps < abs (eN - eO))) || decide (eps * 2.0 < dF)) ||
-          decide (eps * 15.0 < elF) = false := by
+    flagOf abs eps (eN - eO) dF elF di = false := by
   by_cases hb : eps < abs (eN - eO)
   · cases di <;> simp [getErrorMol, hb] at h
   · cases di with
@@ -59,7 +59,7 @@ theorem getErrorMol_active_conv (abs : α → α) (eps eN eO e dF elF d l : α) 
       · simp [getErrorMol, hb, h2] at h
       · by_cases h3 : eps * 15.0 < elF
         · simp [getErrorMol, hb, h2, h3] at h
-        · simp [getErrorMol, hb, h2, h3]
+        · simp [getErrorMol, flagOf, hb, h2, h3]
     | some x =>
       by_cases hd : (50.0 : α) * eps < x
       · simp [getErrorMol, hb, hd] at h
@@ -67,7 +67,7 @@ theorem getErrorMol_active_conv (abs : α → α) (eps eN eO e dF elF d l : α) 
         · simp [getErrorMol, hb, hd, h2] at h
         · by_cases h3 : eps * 15.0 < elF
           · simp [getErrorMol, hb, hd, h2, h3] at h
-          · simp [getErrorMol, hb, hd, h2, h3]
+          · simp [getErrorMol, flagOf, hb, hd, h2, h3]
 
 /-- **Frozen is an invariant of the body**, for any scalar type: the record written in the
     iteration in which a molecule converges is a fixed point of all later bodies, because the
